@@ -235,7 +235,7 @@ const (
 var UnknownAttrsExt = []Attr{{"idx", "7"}, {"ID", "77"}, {"refs", "1 2 3"}, {"timestamp2", "2009-01-01T00:00:00Z"}, {"la", "1.5"}, {"foo", ""}}
 
 // NumUnknownKidsExt is the number of shapes understood by UnknownKidExt.
-const NumUnknownKidsExt = 6
+const NumUnknownKidsExt = 9
 
 // UnknownKidExt returns an unknown element whose name is close to a known
 // one (never equal to an OSM element name in any letter case).
@@ -258,6 +258,13 @@ func UnknownKidExt(which int) *Elem {
 			E("tag", []Attr{{"k", "wrapped"}, {"v", "not a tag"}}),
 			E("member", []Attr{{"type", "node"}, {"ref", "901"}, {"role", "wrapped"}}),
 			E("update", []Attr{{"index", "0"}, {"version", "9"}, {"timestamp", "2012-01-01T00:00:00Z"}}))
+	case 6:
+		// names with upper-case letters (none of them an OSM element name in another case)
+		e = E("osmBase", []Attr{{"at", "2012-01-01T00:00:00Z"}})
+	case 7:
+		e = E("Remark", nil, T("Line", "free text"), E("X-Info", []Attr{{"k", "v"}}))
+	case 8:
+		e = E("X-Info", []Attr{{"Ref", "1"}}, E("Inner", nil, E("nd", []Attr{{"ref", "904"}})))
 	default:
 		// ... two levels down, and with the children a discussion / a note would hold
 		e = E("meta", nil, E("inner", nil,
